@@ -171,8 +171,11 @@ def run_cli(case):
         for p in sorted(out_dir.iterdir()):
             ext = p.suffix.lower()
             if p.is_file() and ext in (".agp", ".tpf"):
-                text = p.read_text()
-                files[p.name] = {"scaffolds": read_agp(text) if ext == ".agp" else read_tpf(text)}
+                text = p.read_text(errors="replace")
+                try:
+                    files[p.name] = {"scaffolds": read_agp(text) if ext == ".agp" else read_tpf(text)}
+                except (ValueError, IndexError, KeyError) as e:
+                    files[p.name] = {"scaffolds": [], "unreadable": f"{type(e).__name__}: {e}"}
         announced = []
         for line in (err or "").splitlines():
             if m := ANNOUNCED.match(line):
@@ -189,7 +192,10 @@ def cli_problems(case, files, announced):
             continue
         said[name] = said.get(name, 0) + 1
         if said[name] == 2 or (verb == "Overwrote" and said[name] == 1):
-            problems.append(f"two assemblies were written to one path: {name!r} was announced {verb!r} in an empty output directory; what was written there first is gone")
+            problems.append(f"two outputs were written to one assembly file path: {name!r} was announced {verb!r} in an empty output directory; what was written there first is gone")
+    for name, f in files.items():
+        if "unreadable" in f:
+            problems.append(f"{name!r} is not an {name.rsplit('.', 1)[1].upper()} file ({f['unreadable']})")
     return problems + partition_problems(case["input"], files)
 
 
@@ -577,7 +583,7 @@ def run(tier, seed, **opts):
     quick = tier == "quick"
     n = 0
 
-    cli_every = 75 if quick else 150  # every n-th case of the streams below also goes through the command line
+    cli_every = 100 if quick else 150  # every n-th case of the streams below also goes through the command line
 
     def one(case, fam, extra=None, nontrivial_hint=True):
         nonlocal n
@@ -587,8 +593,10 @@ def run(tier, seed, **opts):
         r = check(case, col, stats)
         nontrivial = r.error is None and nontrivial_hint
         sample = None
-        if nontrivial and (n % 977 == 0 or (fam.startswith("primary") and n % 9 == 0 and len(col.samples) < 1)):
+        if nontrivial and n % 977 == 0:
             sample = {"family": fam, **case}
+        if nontrivial and fam in ("haplike-2", "primary-2hap-1nohap") and fam not in stats:
+            col.samples.append({"family": fam, **case})  # one of each command-line family, whatever came before
         col.case((pg.case_key(case), case.get("cli_out")), nontrivial=nontrivial, sample=sample)
         stats[fam] = stats.get(fam, 0) + 1
 
